@@ -2,16 +2,14 @@ SPECIFICATION Spec
 CONSTANTS
   N = 2
   Cls = "exact"
-  Gates <- GatesE2q
+  Gates <- GatesE2
   NewParams <- NewParamsC
-  Queries <- QueriesE2q
-  MaxDepth = 2
+  Queries <- QueriesE2
+  MaxDepth = 4
   Record = FALSE
   Deviations <- NoDev
   ConeIgnoresSwap = FALSE
 VIEW view
-INVARIANT AlphabetValid
-INVARIANT GatesUnitary
 INVARIANT RegIsRun
 INVARIANT NormOne
 INVARIANT QueriesAgree
